@@ -175,6 +175,8 @@ def rewrite_all_references(
     all_known = set(known_components).union(looped_ids)
     _ = FlowIR.discover_reference_strings(value, owner_component_stage, all_known, out_map)
 
+    replacements = {}
+
     for match in out_map:
         rewrite = rewrite_reference(out_map[match], binding_values, import_to_stage, owner_component_stage)
 
@@ -198,12 +200,18 @@ def rewrite_all_references(
                     match, rewrite, value
                 ))
 
-        pattern = r'\b' + re.escape(match) + r'\b'
+        replacements[match] = rewrite
+
+    if replacements:
+        # VV: Substitute in a single pass: every occurrence of a reference is rewritten, and the text of an already
+        # substituted reference is never inspected again (a relative spelling such as `x:output` is a suffix of
+        # the rewritten `stage0.0#x:output`). Longer spellings take precedence over their own suffixes.
+        pattern = '|'.join(r'\b' + re.escape(match) + r'\b' for match in sorted(replacements, key=len, reverse=True))
 
         try:
-            value = re.sub(pattern, rewrite, value, 1)
+            value = re.sub(pattern, lambda m: replacements[m.group()], value)
         except Exception:
-            flowirLogger.critical("Failed to res.sub(\"%s\", \"%s\", \"%s\"" % (pattern, rewrite, value))
+            flowirLogger.critical("Failed to res.sub(\"%s\", %s, \"%s\"" % (pattern, replacements, value))
             raise
 
     return value
